@@ -125,6 +125,10 @@ func (t *c10Tab) authShapes() []c10Shape {
 		{"client list empty", []string{"M1"}, nil},
 		{"overlap, different order, with " + n, []string{n, "M1", "M2"}, []string{"M2", n, "M1"}},
 		{"only " + n + " in common", []string{n, "M1"}, []string{n, "M2"}},
+		// disjoint lists drawn from one "family" of real method names: a match-by-family shortcut in one of
+		// the two intersections (but not the other) would make the ends disagree
+		{"disjoint, token family", []string{"TOKEN"}, []string{"SCITOKENS"}},
+		{"disjoint, token family (2)", []string{"IDTOKENS"}, []string{"TOKEN"}},
 	}
 }
 
